@@ -260,7 +260,7 @@ func TestCheck(t *testing.T) {
 		base := model.GenOpts{NowMs: now, MaxPayload: 120}
 
 		// (2) every rule broken separately at wire level; the unbroken twin must be accepted
-		perRule := r.Pick(40, 800)
+		perRule := r.Pick(120, 800)
 		r.Group("single", len(breakers)*perRule, func(i int, rng *report.Rand) {
 			br := breakers[i%len(breakers)]
 			m := model.GenBundle(rng, base)
@@ -301,7 +301,7 @@ func TestCheck(t *testing.T) {
 				pairs = append(pairs, [2]int{a, b})
 			}
 		}
-		perPair := r.Pick(10, 200)
+		perPair := r.Pick(30, 200)
 		r.Group("pairs", len(pairs)*perPair, func(i int, rng *report.Rand) {
 			pr := pairs[i%len(pairs)]
 			m := model.GenBundle(rng, base)
@@ -328,7 +328,7 @@ func TestCheck(t *testing.T) {
 		})
 
 		// (1) accepted => well-formed, on structure-aware mutants
-		r.Group("mutants", r.Pick(20000, 400000), func(i int, rng *report.Rand) {
+		r.Group("mutants", r.Pick(80000, 400000), func(i int, rng *report.Rand) {
 			m := model.GenBundle(rng, base)
 			x, kind := model.Mutate(rng, m)
 			p, err := parse(x)
@@ -345,7 +345,7 @@ func TestCheck(t *testing.T) {
 		})
 
 		// (3a) builder programs
-		r.Group("builder", r.Pick(5000, 100000), func(i int, rng *report.Rand) {
+		r.Group("builder", r.Pick(15000, 100000), func(i int, rng *report.Rand) {
 			var prog []string
 			b, err := runBuilderProgram(rng, &prog)
 			if err != nil {
@@ -359,7 +359,7 @@ func TestCheck(t *testing.T) {
 		})
 
 		// (3b) BuildFromMap with JSON-decoded argument maps (as the REST agent passes them)
-		r.Group("frommap", r.Pick(5000, 100000), func(i int, rng *report.Rand) {
+		r.Group("frommap", r.Pick(15000, 100000), func(i int, rng *report.Rand) {
 			js := genBuildMap(rng)
 			var args map[string]interface{}
 			if err := json.Unmarshal([]byte(js), &args); err != nil {
@@ -382,7 +382,7 @@ func TestCheck(t *testing.T) {
 		})
 
 		// (3c) fragmentation and reassembly outputs
-		r.Group("fragments", r.Pick(1500, 30000), func(i int, rng *report.Rand) {
+		r.Group("fragments", r.Pick(5000, 30000), func(i int, rng *report.Rand) {
 			o := base
 			o.NoFragment = true
 			o.MaxPayload = 600
@@ -418,7 +418,7 @@ func TestCheck(t *testing.T) {
 	// (3d) bundles generated or forwarded by a real node, per routing algorithm
 	bubble.SetT(t)
 	algos := []string{"epidemic", "spray", "binary_spray", "prophet", "dtlsr", "sensor-mule"}
-	r.Group("node-produced", len(algos)*r.Pick(4, 40), func(i int, rng *report.Rand) {
+	r.Group("node-produced", len(algos)*r.Pick(8, 40), func(i int, rng *report.Rand) {
 		if err := nodeProduced(r, algos[i%len(algos)], i, rng); err != nil {
 			r.Violation("c02.node-deadlock-or-panic", err.Error(), nil)
 		}
